@@ -108,7 +108,7 @@ def run_copy(line, how):
 def nodeS(nd):
     nd = cp(nd)
     return " ".join([
-        "N", "P" if type(nd) is bip32.PrvKeyNode else "p", hx(nd.key), hx(nd.chain_code),
+        "N", "P" if isinstance(nd, bip32.PrvKeyNode) else "p", hx(nd.key), hx(nd.chain_code),
         str(nd.depth), str(nd.index), boolS(nd.testnet), hx(nd.parent_fingerprint),
         sx(str(nd)), "-" if nd.parsed_version is None else str(nd.parsed_version)])
 
@@ -144,9 +144,20 @@ def unhash(s):
     return bytes.fromhex(s[1:])
 
 
+class _SubPrv(bip32.PrvKeyNode):
+    """a trivial user subclass (alternative-form exploration): the library builds children with self.__class__"""
+    __slots__ = ()
+
+
+class _SubPub(bip32.PubKeyNode):
+    __slots__ = ()
+
+
 def unnode(s):
     cls, key, chain, depth, index, t, fp = s.split(":")
     klass = bip32.PrvKeyNode if cls == "P" else bip32.PubKeyNode
+    if ALT[0]:
+        klass = _SubPrv if cls == "P" else _SubPub
     return klass(key=unhex(key), chain_code=unhex(chain), index=int(index), depth=int(depth),
                  testnet=unbool(t), parent_fingerprint=None if fp == "none" else unhex(fp))
 
@@ -215,6 +226,11 @@ def make_wallet(spec, cls=None):
         return cls(master=bip32.PrvKeyNode.master_key(bip39_seed=unhex(sd), testnet=unbool(nt)), testnet=unbool(wt))
     if kind == "xkey":
         return cls.from_extended_key(extended_key=unstr(parts[1]))
+    if kind == "rawx":      # class constructor on a PARSED extended key: node flag and wallet flag chosen separately
+        _, xk, nt, wt = parts
+        s_ = unstr(xk)
+        klass = bip32.PrvKeyNode if s_[1:4] == "prv" else bip32.PubKeyNode
+        return cls(master=klass.parse(s_, testnet=unbool(nt)), testnet=unbool(wt))
     if kind == "new":
         _, ob, ln, pr, _pn, t = parts
         with _Urandom(unhex(ob)):
@@ -651,6 +667,10 @@ def cli_run(fs, osbytes, argv, keep=None):
             path = os.path.join(tmp, "plain", "out.json")
         elif fs == "trailslash":
             path = os.path.join(tmp, "out.json") + "/"
+        elif fs in ("filetrail", "filetraildot"):          # an EXISTING file, named with a trailing "/" or "/."
+            with open(os.path.join(tmp, "out.json"), "w") as f:
+                f.write("EXISTING")
+            path = os.path.join(tmp, "out.json") + ("/" if fs == "filetrail" else "/.")
         elif fs == "longname":
             path = os.path.join(tmp, "n" * 300 + ".json")
         elif fs == "symloop":
@@ -706,9 +726,13 @@ def cli_run(fs, osbytes, argv, keep=None):
             extra = [x for x in listing if x != "out.json"]
         elif fs == "dir":
             extra = [x for x in listing if x != "sub"] + os.listdir(path)
-        elif fs in ("parentfile", "trailslash", "longname", "symloop", "dangling"):
+        elif fs in ("parentfile", "trailslash", "longname", "symloop", "dangling", "filetrail", "filetraildot"):
             if fs == "parentfile" and open(os.path.join(tmp, "plain")).read() != "EXISTING":
                 return "overwrote-existing-file", {"status": status}
+            if fs in ("filetrail", "filetraildot"):
+                if open(os.path.join(tmp, "out.json")).read() != "EXISTING":
+                    return "overwrote-existing-file", {"status": status}
+                listing = [x for x in listing if x != "out.json"]
             extra = [x for x in listing if x not in ("plain", "loop") and not (fs == "dangling" and x == "out.json"
                                                                               and os.path.islink(os.path.join(tmp, x)))]
         else:
